@@ -82,3 +82,44 @@ def reference_decode(kind, packets, cfg):
 
 def viol(check, event, msg):
     return {"check": check, "event": event, "msg": msg}
+
+
+def seam_net(kinds=CLIENTS):
+    """Every client type must reach the simulated gateway through the connection seam, read the virtual clock for its
+    timers and deliver through the registered callback.  Returns None or a description of the drift."""
+    from sim import net, traffic
+    for kind in kinds:
+        pkt = traffic.tagged_packet(kind, 7)
+        plan = {"client": kind, "config": {}, "script": [{"a": "accept", "lat": 0.01, "stream": [["pkt", pkt.hex()]], "chunks": [len(pkt)],
+                                                          "gaps": [0.01], "start": 0.01}],
+                "ops": [{"at": 0.0, "op": "connect", "id": 0}], "cb": {}, "knobs": {"min_end": 1.0, "tail": 2.0, "max_end": 60.0}}
+        o = net.run(plan)
+        if len(o.attempts) != 1:
+            return "client %s made %d connection attempts at the simulated gateway for one connect() (expected 1): it no longer " \
+                   "connects through asyncio.open_connection / serial_asyncio.open_serial_connection" % (kind, len(o.attempts))
+    return None
+
+
+def seam_clock():
+    """The decoder must read the wall clock through the name the harness replaces."""
+    from sim import clock, bus
+    from nmea2000.decoder import NMEA2000Decoder
+    vc = bus.VClock(1000.0)
+    bus.with_clock(vc)
+    before = clock._reads[0]
+    NMEA2000Decoder(build_network_map=True)
+    if clock._reads[0] == before:
+        return "constructing a decoder did not read the virtual wall clock (nmea2000.decoder.datetime is no longer the clock it uses)"
+    return None
+
+
+def seam_fs():
+    from sim import fs as simfs
+    from nmea2000.decoder import NMEA2000Decoder
+    fsys = simfs.FakeFS()
+    with simfs.installed(fsys):
+        d = NMEA2000Decoder(dump_to_file="seam/check.jsonl")
+        d.close()
+    if "seam/check.jsonl" not in fsys.files:
+        return "a decoder with dump_to_file did not open its file through the names open/os of nmea2000.decoder"
+    return None
